@@ -1237,3 +1237,49 @@ MUTANTS += [
       edits=[(SS, '\tif state != nil && (s.active[peerID] == slot || finishedWhileLeaving) {\n\t\tstate.LastSeen = now\n\t\tif err == nil {\n\t\t\tstate.Status = ReceiverStatusDone\n\t\t} else {\n\t\t\tstate.Status = ReceiverStatusFailed\n\t\t\t// Mark stage as failed if it hasn\'t reached connect_ok\n\t\t\ts.mu.Unlock() // avoid deadlock as setSenderStage locks s.progressMu then state.mu\n\t\t\ts.setSenderStage(peerID, fmt.Sprintf("FAILED: %v", err))\n\t\t\ts.mu.Lock()\n\t\t}\n\t}\n',
                   '\tif s.active[peerID] == slot || finishedWhileLeaving {\n\t\tif state != nil {\n\t\t\tstate.LastSeen = now\n\t\t\tif err == nil {\n\t\t\t\tstate.Status = ReceiverStatusDone\n\t\t\t} else {\n\t\t\t\tstate.Status = ReceiverStatusFailed\n\t\t\t\t// Mark stage as failed if it hasn\'t reached connect_ok\n\t\t\t\ts.mu.Unlock() // avoid deadlock as setSenderStage locks s.progressMu then state.mu\n\t\t\t\ts.setSenderStage(peerID, fmt.Sprintf("FAILED: %v", err))\n\t\t\t\ts.mu.Lock()\n\t\t\t}\n\t\t}\n\t}\n')]),
 ]
+
+# --- F70 (DESIGN 8.17, Z5) ---
+_F70_NEW = '''		peerStillConnected, sessionEnded := false, false
+		hub.Inspect(sess.ID, func(current []peers.Peer) {
+			senderStillConnected := false
+			for _, p := range current {
+				if p.PeerID == peerID {
+					peerStillConnected = true
+				}
+				if p.Role == "sender" {
+					senderStillConnected = true
+				}
+			}
+			if role == "sender" && !senderStillConnected {
+				store.Delete(sess.ID)
+				sessionEnded = true
+			}
+		})
+'''
+_F70_OLD = '''		peerStillConnected, sessionEnded := false, false
+		senderStillConnected := false
+		for _, p := range hub.List(sess.ID) {
+			if p.PeerID == peerID {
+				peerStillConnected = true
+			}
+			if p.Role == "sender" {
+				senderStillConnected = true
+			}
+		}
+		if role == "sender" && !senderStillConnected {
+			store.Delete(sess.ID)
+			sessionEnded = true
+		}
+'''
+MUTANTS += [
+ dict(id='F70-undo-decision-under-hub-lock', props=['C14'], expect='R-SESSION-LIFE/host-cleanup/delete-under-hub-lock',
+      edits=[(SRV, _F70_NEW, _F70_OLD)]),
+ dict(id='F70-delete-behind-inspect', props=['C14'], expect='R-SESSION-LIFE/host-cleanup/delete-under-hub-lock',
+      edits=[(SRV, '\t\t\tif role == "sender" && !senderStillConnected {\n\t\t\t\tstore.Delete(sess.ID)\n\t\t\t\tsessionEnded = true\n\t\t\t}\n\t\t})\n', '\t\t\tif role == "sender" && !senderStillConnected {\n\t\t\t\tsessionEnded = true\n\t\t\t}\n\t\t})\n\t\tif sessionEnded {\n\t\t\tstore.Delete(sess.ID)\n\t\t}\n')]),
+ dict(id='F70-inspect-under-read-lock', props=['C14'], expect='R-SESSION-LIFE/host-cleanup/inspect-holds-lock',
+      edits=[(HUB, 'func (h *Hub) Inspect(sessionID string, fn func(current []Peer)) {\n\th.mu.Lock()\n\tdefer h.mu.Unlock()\n', 'func (h *Hub) Inspect(sessionID string, fn func(current []Peer)) {\n\th.mu.RLock()\n\tdefer h.mu.RUnlock()\n')]),
+ dict(id='F70-inspect-callback-after-unlock', props=['C14'], expect='R-SESSION-LIFE/host-cleanup/inspect-holds-lock',
+      edits=[(HUB, '\th.mu.Lock()\n\tdefer h.mu.Unlock()\n\tcurrent := make([]Peer, 0, len(h.sessions[sessionID]))\n\tfor _, pc := range h.sessions[sessionID] {\n\t\tcurrent = append(current, pc.peer)\n\t}\n\tfn(current)\n', '\th.mu.Lock()\n\tcurrent := make([]Peer, 0, len(h.sessions[sessionID]))\n\tfor _, pc := range h.sessions[sessionID] {\n\t\tcurrent = append(current, pc.peer)\n\t}\n\th.mu.Unlock()\n\tfn(current)\n')]),
+ dict(id='F70-benign-renamed-locals', props=['C14', 'C16', 'C10', 'C11'], expect='SILENT',
+      edits=[(SRV, _F70_NEW, _F70_NEW.replace('senderStillConnected', 'hostLeft0').replace('current', 'left'))]),
+]
